@@ -22,7 +22,21 @@ import numpy as np
 
 from . import common
 from .common import Driver
-from .universe import canon, veq
+from .universe import canon as _ucanon, veq
+
+
+def canon(x):
+    """universe.canon, except that the numpy backend has its own KGChar class
+    (klongpy.backends.numpy_backend.KGChar, not a subclass of klongpy.core.KGChar)"""
+    if type(x).__name__ == "KGChar":
+        return ("c", str(x))
+    if isinstance(x, np.ndarray) and x.dtype == object and x.ndim >= 1:
+        return ("L", [canon(e) for e in x])
+    if isinstance(x, (list, tuple)):
+        return ("L", [canon(e) for e in x])
+    if isinstance(x, dict):
+        return ("D", [(canon(k), canon(v)) for k, v in x.items()])
+    return _ucanon(x)
 
 CLAIM = dict(
     text="Lean 4 theorems over the interpreter as a state machine (frames, array heap with views, dictionary heap, "
@@ -521,8 +535,16 @@ def gen_verb(rng, operand, kind, n, m, wname=None):
     return operand
 
 
+def pick_defined(rng, A, names, kinds):
+    """mostly a variable that currently holds a value of one of the kinds"""
+    good = [w for w in names if current_kind(A, w)[0] in kinds]
+    if good and rng.random() < 0.92:
+        return rng.choice(good)
+    return rng.choice(names)
+
+
 def gen_expr(rng, A):
-    w = rng.choice(DATA)
+    w = pick_defined(rng, A, DATA, "ISLM")
     kind, n, m = current_kind(A, w)
     operand = var(w)
     if kind in "LM" and rng.random() < 0.3:
@@ -539,7 +561,7 @@ def gen_stmt(rng, A, history, ext):
     if r < 0.34:
         return ("expr", assign(rng.choice(DATA), gen_literal(rng)))
     if r < 0.40:
-        return ("expr", assign(rng.choice(DATA), var(rng.choice(DATA))))
+        return ("expr", assign(rng.choice(DATA), var(pick_defined(rng, A, DATA, "ISLMD"))))
     if r < 0.58:
         return ("expr", assign(rng.choice(DATA), gen_expr(rng, A)))
     if r < 0.70:
@@ -547,8 +569,9 @@ def gen_stmt(rng, A, history, ext):
     if r < 0.77:
         return ("expr", assign(rng.choice(FUNS), ("fn", rng.choice(BODIES))))
     if r < 0.86:
-        f = rng.choice(FUNS)
-        arg = rng.choice([var(rng.choice(DATA)), gen_literal(rng), op2("drop", lit_int(1), var(rng.choice(DATA)))])
+        f = pick_defined(rng, A, FUNS, "F")
+        w = pick_defined(rng, A, DATA, "LLMS")
+        arg = rng.choice([var(w), var(w), gen_literal(rng), op2("drop", lit_int(1), var(w))])
         e = call(f, arg)
         return ("expr", assign(rng.choice(DATA), e) if rng.random() < 0.5 else e)
     if r < 0.92:
@@ -557,7 +580,7 @@ def gen_stmt(rng, A, history, ext):
             return ("expr", assign("t", ("dlit", [(1, 2), (3, 4)][:rng.randrange(0, 3)])))
         if c == 1:
             return ("expr", assign(rng.choice(DATA), var("t")))
-        return ("expr", gen_verb(rng, var(rng.choice(["t", "t", "d"])), "D", 0, 0))
+        return ("expr", gen_verb(rng, var(pick_defined(rng, A, ["t"] + DATA, "D")), "D", 0, 0))
     if ext and r < 0.95:
         return ("expr", ("raw", rng.choice(EXT_TEXTS)))
     return ("module", rng.choice(MODS + [None, None]))
@@ -569,7 +592,7 @@ EXT_TEXTS = [
     "a:=0cx,1", "a::\"hello\"", "b::a:=0cx,0", ":[a;1;2]", "g::{[t];t::x;t:=7,0}", "g(a)", "h::f(;)", "a::[1 2 3]:=0,1",
     "b::+a", "c::a,,b", "d::a:_b", "a::!5", "b::a@<a", "+/'a", "a::[[1 2] [3 4]]", "b::a:-0,0,0", "c::*a", "d::^a",
     "a::,a", "b::|a", "c::=a", "t:::{[1 [1 2 3]]}", "b::t?1", "c::b:=0,0", "t?1", "{x:=0,0}'a", ",/a", "a::[\"ab\" \"cd\"]",
-    "b::a@0", "b::{x,x}:~a", "c::1.0*a", "d::a^2", "e::a>1", "-a", "a::-a",
+    "b::a@0", "c::1.0*a", "d::a^2", "e::a>1", "-a", "a::-a",
 ]
 
 
@@ -578,6 +601,18 @@ def scripted_histories():
     A_ = lambda n, e: ("expr", assign(n, e))
     E_ = lambda e: ("expr", e)
     out = []
+    # the histories of the Lean witnesses (Klong.C04.Witness.histModule / histStale / histAmend / histKey / histViews)
+    out.append([("module", "m1"), ("module", None), ("module", "m1"), A_("b", lit_int(2))])
+    out.append([A_("a", lit_int(3)), A_("b", op2("arith:times", var("a"), lit_int(2))), A_("a", lit_str("ab")),
+                A_("b", op2("arith:times", var("a"), lit_int(2)))])
+    out.append([A_("a", lit_ints([1, 2, 3])), A_("b", var("a")),
+                A_("c", op2("amend", var("b"), op2("join", lit_int(9), lit_int(0)))), E_(var("a")),
+                A_("a", lit_ints([1, 2, 3]))])
+    out.append([A_("a", lit_int(5)), ("module", "m1"), A_("a", lit_int(5)), ("module", None)])
+    out.append([A_("a", lit_ints([1, 2, 3, 4])), A_("b", op2("drop", lit_int(1), var("a"))),
+                A_("c", op2("amend", var("b"), op2("join", lit_int(9), lit_int(0)))),
+                A_("f", ("fn", op2("join", var("x"), lit_ints([7, 7])))), A_("c", call("f", var("a"))), E_(var("a")),
+                A_("b", op2("arith:plus", var("a"), var("a"))), E_(op2("arith:plus", var("a"), var("a")))])
     # module switches re-using cached parses
     out.append([("module", "m1"), A_("a", lit_int(1)), ("module", None), ("module", "m1"), A_("b", lit_int(2)),
                 E_(var("a")), ("module", None), E_(var("b")), E_(var("a"))])
@@ -640,6 +675,7 @@ def run_history(ctx, stmts, drv, label):
     if model:
         drv.ask("reset")
     clean = True
+    pending = None
     for i, st in enumerate(stmts):
         text = stmt_text(st)
         case = dict(kind=label, history=[json_stmt(s) for s in stmts[:i + 1]], texts=[stmt_text(s) for s in stmts[:i + 1]])
@@ -662,19 +698,28 @@ def run_history(ctx, stmts, drv, label):
         # ---- oracle 1: fresh interpreter loaded with a copy of the pre-state
         if not (out_eq(oA, oB) and snap_eq(sA, sB) and mod_text(A) == mod_text(B)):
             what = ("outcome" if not out_eq(oA, oB) else "variables" if not snap_eq(sA, sB) else "module")
-            ctx.oracle_fail(f"rerun-fresh:{what}:{verb}", case,
-                            dict(fresh=out_text(oB), vars=snap_text(sB), module=mod_text(B)),
-                            dict(history=out_text(oA), vars=snap_text(sA), module=mod_text(A)),
-                            "the statement behaves differently after this history than in a fresh interpreter "
-                            "loaded with a copy of the same variable state")
-            return False
+            report = dict(key=f"rerun-fresh:{what}:{verb}", case=case,
+                          expected=dict(fresh=out_text(oB), vars=snap_text(sB), module=mod_text(B)),
+                          observed=dict(history=out_text(oA), vars=snap_text(sA), module=mod_text(A)),
+                          what="the statement behaves differently after this history than in a fresh interpreter "
+                               "loaded with a copy of the same variable state")
+            if what == "module" and i + 1 < len(stmts):
+                # only the parse-time module differs so far: go on, so that the replay shows where a later
+                # definition lands (oracle 2 compares the variables with the cache-free run)
+                pending = pending or report
+                model = False
+            else:
+                ctx.oracle_fail(**report)
+                return False
         # ---- oracle 2: the same history with every cache emptied before each statement
         if not (out_eq(oA, oC) and snap_eq(sA, sC)):
             what = "outcome" if not out_eq(oA, oC) else "variables"
             ctx.oracle_fail(f"cache-observable:{what}:{verb}", case,
                             dict(cache_free=out_text(oC), vars=snap_text(sC), module=mod_text(C)),
                             dict(cached=out_text(oA), vars=snap_text(sA), module=mod_text(A)),
-                            "the history gives different results with the parse/compiled caches emptied before every statement")
+                            "the history gives different results with the parse/compiled caches emptied before every "
+                            "statement" + (" (after the parse-time module diverged from a fresh interpreter's at "
+                                           f"statement {len(pending['case']['texts'])})" if pending else ""))
             return False
         # ---- sharing: result vs arrays that existed before
         shares = False
@@ -689,6 +734,8 @@ def run_history(ctx, stmts, drv, label):
             if f.get("out") == "unm":
                 ctx.bump("unmodelled")
                 ctx.bump("unmodelled:" + verb)
+                if len(ctx.extra.setdefault("unmodelled_samples", [])) < 40:
+                    ctx.extra["unmodelled_samples"].append([stmt_text(s) for s in stmts[:i + 1]][-4:])
                 model = False
             else:
                 impl = f"out={out_text(oA)} vars={snap_text(sA)} mod={mod_text(A)}"
@@ -714,6 +761,9 @@ def run_history(ctx, stmts, drv, label):
         ctx.bump("out:" + oA[0])
         if shares:
             ctx.bump("result-shares-memory")
+    if pending:
+        ctx.oracle_fail(**pending)
+        return False
     ctx.count((label, tuple(stmt_text(s) for s in stmts)), nontrivial=len(stmts) >= 2)
     return clean
 
@@ -740,8 +790,11 @@ def gen_history(rng, length, ext):
     from klongpy import KlongInterpreter
     scout = KlongInterpreter()
     hist = []
-    for _ in range(length):
-        st = gen_stmt(rng, scout, hist, ext)
+    prelude = [("expr", assign(w, gen_literal(rng))) for w in rng.sample(DATA, rng.randrange(2, 5))]
+    if rng.random() < 0.7:
+        prelude.append(("expr", assign("f", ("fn", rng.choice(BODIES[:16])))))
+    for k in range(length + len(prelude)):
+        st = prelude[k] if k < len(prelude) else gen_stmt(rng, scout, hist, ext)
         hist.append(st)
         try:
             scout(stmt_text(st))
